@@ -331,6 +331,49 @@ def judge_merge(case) -> Outcome:
             out.fail("c19.key_lookup", f"attribute/contains lookup of key {k!r}")
     if len(s) != len(list(s)):
         out.fail("c19.len_iter", "len != number of iterated items")
+    # writes: by key, by attribute and by path replace exactly that entry (on a copy built from the same model)
+    s2 = build_lists(models[0])
+    keys = list(s2._structure)
+    k0 = keys[0]
+    before = plain_of(s2)
+    try:
+        if k0 != "root":
+            s2[k0] = ["new"]
+            exp = dict(before)
+            exp[k0] = ["new"]
+            if plain_of(s2) != exp:
+                out.fail("c19.setitem", f"s[{k0!r}] = v changed {before} into {plain_of(s2)}")
+            setattr(s2, k0, ["newer"])
+            exp[k0] = ["newer"]
+            if plain_of(s2) != exp or s2[k0] != ["newer"]:
+                out.fail("c19.setattr", f"s.{k0} = v gave {plain_of(s2)}")
+        for bad in ("_private", "not an identifier", 3):
+            try:
+                s2[bad] = 1
+                out.fail("c19.setitem_invalid_key", f"s[{bad!r}] = 1 was accepted")
+            except KeyError:
+                pass
+        nested = [(p, leaf) for p, leaf in paths(s) if len(p) >= 2 and isinstance(p[-1], str)]
+        if nested:
+            p, _ = nested[0]
+            s3 = build_lists(models[0])
+            s3[p] = ["deep"]
+            if s3[p] != ["deep"]:
+                out.fail("c19.setitem_path", f"s[{p}] = v not stored")
+            others = [(q, leaf) for q, leaf in paths(s3) if q != p]
+            if [q for q, _ in others] != [q for q, _ in paths(s) if q != p]:
+                out.fail("c19.setitem_path", f"s[{p}] = v disturbed other paths")
+        if any(k != "root" for k in s._structure):  # (a root-only structure forwards item access to its root)
+            try:
+                s["no_such_key"]
+                out.fail("c19.getitem_missing", "lookup of a missing key did not raise")
+            except KeyError:
+                pass
+        if "root" in s._structure and len(s._structure) > 1 and s[None] is not s._structure["root"]:
+            out.fail("c19.getitem_root", "s[None] is not the root")
+        repr(s), str(s)
+    except Exception as e:  # noqa: BLE001
+        out.fail("c19.structured_write_raised", f"{plain_of(s2)}: {type(e).__name__}: {e}")
     return out
 
 
@@ -507,7 +550,7 @@ def rterm(rng):
 def gen_formula(rng: random.Random, tier: str) -> dict:
     ops = []
     for _ in range(rng.randint(1, 14)):
-        op = rng.choice(["insert", "append", "set", "set", "del", "pop", "extend", "remove", "reverse", "slice_del"])
+        op = rng.choice(["insert", "append", "set", "set", "del", "pop", "extend", "remove", "reverse", "slice_del", "slice_get"])
         ops.append([op, rng.random(), [rterm(rng) for _ in range(rng.randint(0, 3))] if op == "extend" else rterm(rng)])
     return {"ordering": rng.choice(["none", "degree", "sort", "sort"]),
             "init": [rterm(rng) for _ in range(rng.randint(0, 6))], "ops": ops}
@@ -600,6 +643,14 @@ def judge_formula(case) -> Outcome:
             elif op == "reverse":
                 f.reverse()
                 model.reverse()
+            elif op == "slice_get" and n:
+                i, j = sorted((int(r * n), int((r * 7919) % 1 * (n + 1))))
+                sub = f[i:j]
+                if [tkey(t) for t in sub] != [tkey(t) for t in list(f)[i:j]] or getattr(sub.ordering, "value", sub.ordering) != ordering:
+                    out.fail("c19.formula_slice", f"f[{i}:{j}] = {list(sub)} (ordering {sub.ordering}) vs {list(f)[i:j]}")
+                if any((t in f) is not True for t in list(f)) or f.index(list(f)[0]) != 0 and tkey(list(f)[0]) not in [tkey(x) for x in list(f)[:1]]:
+                    out.fail("c19.formula_contains", "membership/index inconsistent")
+                continue
             else:
                 continue
         except Exception as e:  # noqa: BLE001
